@@ -89,7 +89,7 @@ def derivative(expr: e.Expr, t_string: str):
             assert len(obj) == 1
             obj = obj[0]
             symmetrized_deriv_contrib = (
-                symmetrized_deriv_contrib.subs(x, obj)
+                symmetrized_deriv_contrib.subs(x, obj.base)
             )
             # - sort the derivative according to the space of the minimal
             #   tensor indices
